@@ -89,6 +89,59 @@ def execute(mod, case):
     return res
 
 
+def run_isolated(mod, case, timeout=900):
+    """Execute one case in a fork of this (pristine) process and return its
+    result.  The calling process never runs library code itself, so every
+    case starts from the same interpreter state: whatever the library keeps
+    at module level cannot leak from one case into the next, and a case
+    replays identically wherever it runs."""
+    import pickle
+    import select
+    import signal
+    r, w = os.pipe()
+    pid = os.fork()
+    if pid == 0:
+        try:
+            os.close(r)
+            try:
+                payload = pickle.dumps(('ok', execute(mod, case)))
+            except MemoryError:
+                payload = pickle.dumps(('err', 'MemoryError in case process'))
+            except BaseException:       # noqa - incl. escaped SimInterrupt
+                payload = pickle.dumps(
+                    ('err', traceback.format_exc()[-2000:]))
+            view = memoryview(payload)
+            while view:
+                n = os.write(w, view[:65536])
+                view = view[n:]
+        finally:
+            os._exit(0)
+    os.close(w)
+    chunks = []
+    deadline = time.time() + timeout
+    try:
+        while True:
+            left = deadline - time.time()
+            if left <= 0:
+                os.kill(pid, signal.SIGKILL)
+                return 'err', f'case process exceeded {timeout}s'
+            ready, _, _ = select.select([r], [], [], min(left, 5.0))
+            if ready:
+                b = os.read(r, 1 << 20)
+                if not b:
+                    break
+                chunks.append(b)
+    finally:
+        os.close(r)
+        try:
+            os.waitpid(pid, 0)
+        except ChildProcessError:
+            pass
+    if not chunks:
+        return 'err', 'case process died without a result'
+    return pickle.loads(b''.join(chunks))
+
+
 # --------------------------------------------------------------------------
 # worker side
 # --------------------------------------------------------------------------
@@ -115,6 +168,10 @@ def _chunk_task(pid, tier, seeds, want_digests):
     faulthandler.dump_traceback_later(600, exit=True)
     try:
         mod = prop_module(pid)
+        if getattr(mod, 'USES_CHILD', False):
+            # started here so that the forked case processes inherit it
+            from .restorer import Child
+            Child.get()
         agg = {'runs': 0, 'stats': {}, 'sigs': set(), 'cover': set(),
                'viols': [], 'samples': [], 'digests': {}, 'errors': []}
         uses_index = getattr(mod, 'USES_INDEX', False)
@@ -122,7 +179,10 @@ def _chunk_task(pid, tier, seeds, want_digests):
             try:
                 case = mod.gen_case(seed, tier, index) if uses_index \
                     else mod.gen_case(seed, tier)
-                res = execute(mod, case)
+                status, res = run_isolated(mod, case)
+                if status != 'ok':
+                    agg['errors'].append({'seed': seed, 'error': res})
+                    continue
             except MemoryError:
                 agg['errors'].append(
                     {'seed': seed, 'error': 'MemoryError in worker'})
@@ -169,7 +229,13 @@ def _shrink_task(pid, case, tag, budget):
 
 def _exec_task(pid, case):
     mod = prop_module(pid)
-    return execute(mod, case)
+    if getattr(mod, 'USES_CHILD', False):
+        from .restorer import Child
+        Child.get()
+    status, res = run_isolated(mod, case)
+    if status != 'ok':
+        raise RuntimeError(res)
+    return res
 
 
 def make_pool(workers):
